@@ -887,6 +887,124 @@ theorem wsLen_visible (a : Nat) (t : List Nat) (h1 : a < 128) (h2 : asciiWs a = 
   simp only [wsLen, h3, if_false]
   split <;> first | rfl | omega
 
+/-- `%.3f %.6f %.9f` print a dot first -/
+theorem dotfrac_head (c : Ctx) (f : Fixed) (hf : f = .nanosecond3 ∨ f = .nanosecond6 ∨ f = .nanosecond9)
+    (tb : List Nat) (hfmt : Format.format_fixed c.date c.time c.off f = Format.wok tb) : ∃ t, tb = 46 :: t := by
+  cases ht : c.time with
+  | none =>
+    rw [ht] at hfmt
+    rcases hf with rfl | rfl | rfl <;> cases hd : c.date <;> rw [hd] at hfmt <;> cases hfmt
+  | some t =>
+    rw [ht] at hfmt
+    rcases hf with rfl | rfl | rfl
+    · have : Format.format_fixed c.date (some t) c.off .nanosecond3 =
+          Format.wok (46 :: Format.fmtInt (t.nanosecond / 1000000 % 1000) 3 .zero false) := by cases c.date <;> rfl
+      exact ⟨_, (wok_inj _ _ (this.symm.trans hfmt)).symm⟩
+    · have : Format.format_fixed c.date (some t) c.off .nanosecond6 =
+          Format.wok (46 :: Format.fmtInt (t.nanosecond / 1000 % 1000000) 6 .zero false) := by cases c.date <;> rfl
+      exact ⟨_, (wok_inj _ _ (this.symm.trans hfmt)).symm⟩
+    · have : Format.format_fixed c.date (some t) c.off .nanosecond9 =
+          Format.wok (46 :: Format.fmtInt (t.nanosecond % 1000000000) 9 .zero false) := by cases c.date <;> rfl
+      exact ⟨_, (wok_inj _ _ (this.symm.trans hfmt)).symm⟩
+
+/-- `%.f` prints nothing, or a dot first -/
+theorem optfrac_head (c : Ctx) (tb : List Nat)
+    (hfmt : Format.format_fixed c.date c.time c.off .nanosecond = Format.wok tb) : tb = [] ∨ ∃ t, tb = 46 :: t := by
+  cases ht : c.time with
+  | none => rw [ht] at hfmt; cases hd : c.date <;> rw [hd] at hfmt <;> cases hfmt
+  | some t =>
+    rw [ht] at hfmt
+    have : Format.format_fixed c.date (some t) c.off .nanosecond =
+        (if t.nanosecond % 1000000000 = 0 then Format.wok []
+         else if t.nanosecond % 1000000000 % 1000000 = 0 then
+           Format.wok (46 :: Format.fmtInt (t.nanosecond % 1000000000 / 1000000) 3 .zero false)
+         else if t.nanosecond % 1000000000 % 1000 = 0 then
+           Format.wok (46 :: Format.fmtInt (t.nanosecond % 1000000000 / 1000) 6 .zero false)
+         else Format.wok (46 :: Format.fmtInt (t.nanosecond % 1000000000) 9 .zero false)) := by
+      cases c.date <;> rfl
+    rw [this] at hfmt
+    split at hfmt
+    · exact Or.inl (wok_inj _ _ hfmt).symm
+    · split at hfmt
+      · exact Or.inr ⟨_, (wok_inj _ _ hfmt).symm⟩
+      · split at hfmt
+        · exact Or.inr ⟨_, (wok_inj _ _ hfmt).symm⟩
+        · exact Or.inr ⟨_, (wok_inj _ _ hfmt).symm⟩
+
+/-- a zero-padded non-negative number starts with a digit -/
+theorem fmtInt_zero_head (v : Int) (w : Nat) (h0 : 0 ≤ v) :
+    ∃ a t, Format.fmtInt v w .zero false = a :: t ∧ isDigit a = true := by
+  rw [RenderScan.fmtInt_zero_nonneg v w h0]
+  obtain ⟨h1, _, h3, _, _⟩ := RenderScan.digits_spec v.toNat
+  cases hk : w - (Format.digits v.toNat).length with
+  | zero =>
+    cases hd : Format.digits v.toNat with
+    | nil => rw [hd] at h3; simp at h3
+    | cons a t => exact ⟨a, t, by simp, h1 a (by rw [hd]; exact List.mem_cons_self)⟩
+  | succ k => exact ⟨48, List.replicate k 48 ++ Format.digits v.toNat, by simp [List.replicate_succ], by decide⟩
+
+/-- `%3f %6f %9f` print a digit first -/
+theorem nodot_head (c : Ctx) (f : Fixed)
+    (hf : f = .nanosecond3NoDot ∨ f = .nanosecond6NoDot ∨ f = .nanosecond9NoDot)
+    (tb : List Nat) (hfmt : Format.format_fixed c.date c.time c.off f = Format.wok tb) :
+    ∃ a t, tb = a :: t ∧ isDigit a = true := by
+  cases ht : c.time with
+  | none =>
+    rw [ht] at hfmt
+    rcases hf with rfl | rfl | rfl <;> cases hd : c.date <;> rw [hd] at hfmt <;> cases hfmt
+  | some t =>
+    rw [ht] at hfmt
+    rcases hf with rfl | rfl | rfl
+    · have : Format.format_fixed c.date (some t) c.off .nanosecond3NoDot =
+          Format.wok (Format.fmtInt (t.nanosecond / 1000000 % 1000) 3 .zero false) := by cases c.date <;> rfl
+      have e := wok_inj _ _ (this.symm.trans hfmt)
+      obtain ⟨a, r, h1, h2⟩ := fmtInt_zero_head (t.nanosecond / 1000000 % 1000) 3 (by omega)
+      exact ⟨a, r, by rw [← e, h1], h2⟩
+    · have : Format.format_fixed c.date (some t) c.off .nanosecond6NoDot =
+          Format.wok (Format.fmtInt (t.nanosecond / 1000 % 1000000) 6 .zero false) := by cases c.date <;> rfl
+      have e := wok_inj _ _ (this.symm.trans hfmt)
+      obtain ⟨a, r, h1, h2⟩ := fmtInt_zero_head (t.nanosecond / 1000 % 1000000) 6 (by omega)
+      exact ⟨a, r, by rw [← e, h1], h2⟩
+    · have : Format.format_fixed c.date (some t) c.off .nanosecond9NoDot =
+          Format.wok (Format.fmtInt (t.nanosecond % 1000000000) 9 .zero false) := by cases c.date <;> rfl
+      have e := wok_inj _ _ (this.symm.trans hfmt)
+      obtain ⟨a, r, h1, h2⟩ := fmtInt_zero_head (t.nanosecond % 1000000000) 9 (by omega)
+      exact ⟨a, r, by rw [← e, h1], h2⟩
+
+/-- a complete first character that is not white space stays so whatever follows the literal -/
+theorem wsLen_complete (b : Nat) (rest x : List Nat) (h0 : wsLen (b :: rest) = 0)
+    (hl : charLen b ≤ (b :: rest).length) : wsLen (b :: rest ++ x) = 0 := by
+  by_cases hws : (9 ≤ b ∧ b ≤ 13) ∨ b = 32
+  · simp [wsLen, hws] at h0
+  · cases rest with
+    | nil =>
+      have hb : b < 128 := by
+        unfold charLen at hl
+        simp only [List.length_cons, List.length_nil] at hl
+        split at hl
+        · assumption
+        · split at hl <;> first | omega | (split at hl <;> omega)
+      have : asciiWs b = false := by
+        simp only [asciiWs, Bool.or_eq_false_iff, Bool.and_eq_false_iff, decide_eq_false_iff_not, beq_eq_false_iff_ne]
+        omega
+      exact wsLen_visible b _ hb this
+    | cons c r =>
+      cases r with
+      | nil =>
+        have hb : b < 224 := by
+          unfold charLen at hl
+          simp only [List.length_cons, List.length_nil] at hl
+          split at hl
+          · omega
+          · split at hl <;> first | omega | (split at hl <;> omega)
+        simp only [List.cons_append, List.nil_append]
+        simp only [wsLen, hws, if_false] at h0 ⊢
+        split at h0 <;> split <;> simp_all <;> omega
+      | cons d r' =>
+        simp only [List.cons_append]
+        simp only [wsLen, hws, if_false] at h0 ⊢
+        split at h0 <;> split <;> simp_all
+
 /-- the rendering of an item that `Spec.stopsNumber` accepts stops a number, and does not start with
 a dot unless the item is a literal that does -/
 theorem stops_head (c : Ctx) (hc : CtxOk c) (b : Item) (hp : provedItem b = true) (hs : stopsNumber b = true)
@@ -919,13 +1037,40 @@ theorem stops_head (c : Ctx) (hc : CtxOk c) (b : Item) (hp : provedItem b = true
       exact fromHead a t rfl ha (wsRun_head a t hp)
   | numeric n pad => simp [stopsNumber] at hs
   | fixed f =>
-    have hf : f ∈ [Fixed.shortMonthName, .longMonthName, .shortWeekdayName, .longWeekdayName, .lowerAmPm,
-        .upperAmPm, .timezoneOffset, .timezoneOffsetColon] := by
-      cases f <;> simp [stopsNumber] at hs ⊢
-    obtain ⟨a, t, e, ha⟩ := fixed_head c hc f hf tb hfmt
-    obtain ⟨h1, h2, _, _⟩ := alpha_sign_facts a ha
-    exact fromHead a t e h1 h2
+    by_cases hdf : f = .nanosecond3 ∨ f = .nanosecond6 ∨ f = .nanosecond9
+    · obtain ⟨t, e⟩ := dotfrac_head c f hdf tb hfmt
+      subst e
+      refine ⟨fun b' t' e' => ?_, fun hd => ?_⟩
+      · rw [List.cons_append] at e'; injection e' with e1 _; rw [← e1]; decide
+      · rcases hdf with rfl | rfl | rfl <;> simp [startsWithDot] at hd
+    · have hf : f ∈ [Fixed.shortMonthName, .longMonthName, .shortWeekdayName, .longWeekdayName, .lowerAmPm,
+          .upperAmPm, .timezoneOffset, .timezoneOffsetColon] := by
+        cases f <;> simp [stopsNumber] at hs hdf ⊢
+      obtain ⟨a, t, e, ha⟩ := fixed_head c hc f hf tb hfmt
+      obtain ⟨h1, h2, _, _⟩ := alpha_sign_facts a ha
+      exact fromHead a t e h1 h2
   | error => cases hp
+
+/-- the rendering of a name, am/pm or fixed-width fraction item does not start with white space -/
+theorem after_space_fixed (c : Ctx) (hc : CtxOk c) (f : Fixed) (hs : afterSpaceOk (.fixed f) = true)
+    (hl : ¬ leadInsensitive (.fixed f) = true) (tb : List Nat)
+    (hfmt : Format.format_fixed c.date c.time c.off f = Format.wok tb) (x : List Nat) :
+    wsLen (tb ++ x) = 0 := by
+  by_cases hdf : f = .nanosecond3 ∨ f = .nanosecond6 ∨ f = .nanosecond9
+  · obtain ⟨t, e⟩ := dotfrac_head c f hdf tb hfmt
+    subst e
+    exact wsLen_visible 46 _ (by decide) (by decide)
+  · by_cases hnd : f = .nanosecond3NoDot ∨ f = .nanosecond6NoDot ∨ f = .nanosecond9NoDot
+    · obtain ⟨a, t, e, ha⟩ := nodot_head c f hnd tb hfmt
+      subst e
+      exact wsLen_digit a _ ha
+    · have hf : f ∈ [Fixed.shortMonthName, .longMonthName, .shortWeekdayName, .longWeekdayName, .lowerAmPm,
+          .upperAmPm, .timezoneOffset, .timezoneOffsetColon] := by
+        cases f <;> simp [afterSpaceOk, leadInsensitive, visibleLiteral] at hs hl hdf hnd ⊢
+      obtain ⟨a, t, e, ha⟩ := fixed_head c hc f hf tb hfmt
+      obtain ⟨_, _, h3, h4⟩ := alpha_sign_facts a ha
+      subst e
+      exact wsLen_visible a _ h3 h4
 
 /-- after a white-space item: the next rendering does not start with white space, or the next reader
 skips it anyway -/
@@ -943,18 +1088,11 @@ theorem after_space_head (c : Ctx) (hc : CtxOk c) (b : Item) (is' : List Item) (
       | nil => simp [afterSpaceOk, leadInsensitive, visibleLiteral] at hs
       | cons a t =>
         simp only [afterSpaceOk, leadInsensitive, visibleLiteral, Bool.false_or, Bool.and_eq_true,
-          decide_eq_true_eq, Bool.not_eq_true'] at hs
-        exact wsLen_visible a _ hs.1 hs.2
+          decide_eq_true_eq, beq_iff_eq] at hs
+        exact wsLen_complete a t x hs.1 hs.2
     | space s => exact absurd rfl hl
     | numeric n pad => exact absurd rfl hl
-    | fixed f =>
-      have hf : f ∈ [Fixed.shortMonthName, .longMonthName, .shortWeekdayName, .longWeekdayName, .lowerAmPm,
-          .upperAmPm, .timezoneOffset, .timezoneOffsetColon] := by
-        cases f <;> simp [afterSpaceOk, leadInsensitive, visibleLiteral] at hs hl ⊢
-      obtain ⟨a, t, e, ha⟩ := fixed_head c hc f hf tb hfmt
-      obtain ⟨_, _, h3, h4⟩ := alpha_sign_facts a ha
-      subst e
-      exact wsLen_visible a _ h3 h4
+    | fixed f => exact after_space_fixed c hc f hs hl tb hfmt x
     | error => cases hp
 
 /-! ### from the syntactic predicates to the token chain -/
@@ -1020,10 +1158,11 @@ theorem spec_of_stops (R : List Nat) (h : StopsDigits R) : startsNonDigit R = tr
 theorem restOk_of_sep (c : Ctx) (hc : CtxOk c) (a b : Item) (rest : List Item) (hpa : provedItem a = true)
     (hpb : provedItem b = true) (hnot : ∀ sp, a ≠ .space sp)
     (hsep : separated (a :: b :: rest) = true) (hy : YearOk c (a :: b :: rest))
-    (tb : List Nat) (hfmt : Format.format_item c.date c.time c.off b = Format.wok tb) (x : List Nat) :
+    (tb : List Nat) (hfmt : Format.format_item c.date c.time c.off b = Format.wok tb) (x : List Nat)
+    (hB : isNumber a = true → isOptFrac b = true → (startsNonDigit (tb ++ x) = true ∨ tb ++ x = [])) :
     RestOk c a (tb ++ x) := by
   simp only [separated, Bool.and_eq_true, Bool.or_eq_true, Bool.not_eq_true'] at hsep
-  obtain ⟨⟨hsd, hdot⟩, _⟩ := hsep
+  obtain ⟨⟨hsd0, hdot⟩, _⟩ := hsep
   have stops : stopsNumber b = true → (startsNonDigit (tb ++ x) = true ∨ tb ++ x = []) :=
     fun h => spec_of_stops _ (stops_head c hc b hpb h tb hfmt x).1
   cases a with
@@ -1031,6 +1170,10 @@ theorem restOk_of_sep (c : Ctx) (hc : CtxOk c) (a b : Item) (rest : List Item) (
   | space s => exact absurd rfl (hnot s)
   | error => cases hpa
   | fixed f =>
+    have hsd : selfDelimiting (.fixed f) = true ∨ stopsNumber b = true := by
+      rcases hsd0 with h | h
+      · exact h
+      · exact absurd h.1 (by simp [isNumber])
     cases f <;> first
       | trivial
       | (simp only [selfDelimiting, Bool.false_eq_true, false_or] at hsd
@@ -1053,26 +1196,43 @@ theorem restOk_of_sep (c : Ctx) (hc : CtxOk c) (a b : Item) (rest : List Item) (
     by_cases hsb : stopsNumber b = true
     · have := stops hsb
       cases n <;> simp only [RestOk] <;> first | trivial | exact this | exact Or.inl this
-    · have hsb' : stopsNumber b = false := by simpa using hsb
-      have hself : selfDelimiting (.numeric n pad) = true := by
-        rcases hsd with h | h
-        · exact h
-        · exact absurd h hsb
-      cases n with
-      | year =>
-        obtain ⟨hp0, ht⟩ := hyear .year (Or.inl rfl) rfl hself hsb'
-        exact Or.inr ⟨hp0, hy.1 ht⟩
-      | isoYear =>
-        obtain ⟨hp0, ht⟩ := hyear .isoYear (Or.inr rfl) rfl hself hsb'
-        exact Or.inr ⟨hp0, hy.2 ht⟩
-      | timestamp => simp [selfDelimiting] at hself
-      | quarter => trivial
-      | numDaysFromSun => trivial
-      | weekdayFromMon => trivial
-      | _ =>
-        simp only [RestOk]
-        right
-        cases pad <;> simp [selfDelimiting] at hself ⊢
+    · by_cases hob : isOptFrac b = true
+      · have := hB rfl hob
+        cases n <;> simp only [RestOk] <;> first | trivial | exact this | exact Or.inl this
+      · have hsb' : stopsNumber b = false := by simpa using hsb
+        have hself : selfDelimiting (.numeric n pad) = true := by
+          rcases hsd0 with (h | h) | h
+          · exact h
+          · exact absurd h hsb
+          · exact absurd h.2 hob
+        cases n with
+        | year =>
+          obtain ⟨hp0, ht⟩ := hyear .year (Or.inl rfl) rfl hself hsb'
+          exact Or.inr ⟨hp0, hy.1 ht⟩
+        | isoYear =>
+          obtain ⟨hp0, ht⟩ := hyear .isoYear (Or.inr rfl) rfl hself hsb'
+          exact Or.inr ⟨hp0, hy.2 ht⟩
+        | timestamp => simp [selfDelimiting] at hself
+        | quarter => trivial
+        | numDaysFromSun => trivial
+        | weekdayFromMon => trivial
+        | _ =>
+          simp only [RestOk]
+          right
+          cases pad <;> simp [selfDelimiting] at hself ⊢
+
+/-- a number directly before `%.f`: what delimits `%.f` delimits the number too -/
+theorem optfrac_stops (c : Ctx) (b : Item) (hb : isOptFrac b = true) (tb : List Nat)
+    (hfmt : Format.format_item c.date c.time c.off b = Format.wok tb) (x : List Nat) (hR : RestOk c b x) :
+    startsNonDigit (tb ++ x) = true ∨ tb ++ x = [] := by
+  cases b with
+  | fixed f =>
+    cases f <;> first
+      | (simp [isOptFrac] at hb; done)
+      | (rcases optfrac_head c tb hfmt with e | ⟨t, e⟩
+         · subst e; simpa using hR.1
+         · subst e; left; rfl)
+  | _ => simp [isOptFrac] at hb
 
 theorem yearOk_tail (c : Ctx) (a b : Item) (rest : List Item) (h : YearOk c (a :: b :: rest)) :
     YearOk c (b :: rest) := by
@@ -1137,6 +1297,29 @@ theorem chain_of_separated (c : Ctx) (hc : CtxOk c) : ∀ (is : List Item) (tks 
               (by cases a <;> simp only [spaceSafe, Bool.and_eq_true] at hsafe <;> first | exact hsafe.2 | exact hsafe)
               (yearOk_tail c a b is' hy)
           have eR : flatText (tkb :: tks') ++ [] = tkb.text ++ (flatText tks' ++ []) := by simp [flatText]
+          have hsepT : separated (b :: is') = true := by
+            simp only [separated, Bool.and_eq_true] at hsep; exact hsep.2
+          have hB : isNumber a = true → isOptFrac b = true →
+              (startsNonDigit (tkb.text ++ (flatText tks' ++ [])) = true ∨ tkb.text ++ (flatText tks' ++ []) = []) := by
+            intro _ hob
+            refine optfrac_stops c b hob tkb.text hfb _ ?_
+            have hnsb : ∀ sp, b ≠ .space sp := fun sp e => by subst e; simp [isOptFrac] at hob
+            have hnnb : ¬ isNumber b = true := by
+              cases b <;> simp [isOptFrac, isNumber] at hob ⊢
+            cases is' with
+            | nil =>
+              cases tks' with
+              | cons _ _ => exact absurd htl.2 (by simp [TokensOf])
+              | nil => exact restOk_nil c b
+            | cons c' is'' =>
+              cases tks' with
+              | nil => exact absurd htl.2 (by simp [TokensOf])
+              | cons tkc tks'' =>
+                have e2 : flatText (tkc :: tks'') ++ [] = tkc.text ++ (flatText tks'' ++ []) := by simp [flatText]
+                rw [e2]
+                exact restOk_of_sep c hc b c' is'' hpb
+                  (hp c' (List.mem_cons_of_mem _ (List.mem_cons_of_mem _ List.mem_cons_self))) hnsb hsepT
+                  (yearOk_tail c a b _ hy) tkc.text htl.2.1.1 _ (fun h => absurd h hnnb)
           cases a with
           | space sp =>
             obtain ⟨h1, h2⟩ := spaceTok sp rfl
@@ -1148,15 +1331,15 @@ theorem chain_of_separated (c : Ctx) (hc : CtxOk c) : ∀ (is : List Item) (tks 
           | literal l =>
             refine ⟨inv_of _ ?_, htail⟩
             rw [eR]
-            exact restOk_of_sep c hc _ b is' hpa hpb (fun sp h => by cases h) hsep hy tkb.text hfb _
+            exact restOk_of_sep c hc _ b is' hpa hpb (fun sp h => by cases h) hsep hy tkb.text hfb _ hB
           | numeric n pad =>
             refine ⟨inv_of _ ?_, htail⟩
             rw [eR]
-            exact restOk_of_sep c hc _ b is' hpa hpb (fun sp h => by cases h) hsep hy tkb.text hfb _
+            exact restOk_of_sep c hc _ b is' hpa hpb (fun sp h => by cases h) hsep hy tkb.text hfb _ hB
           | fixed f =>
             refine ⟨inv_of _ ?_, htail⟩
             rw [eR]
-            exact restOk_of_sep c hc _ b is' hpa hpb (fun sp h => by cases h) hsep hy tkb.text hfb _
+            exact restOk_of_sep c hc _ b is' hpa hpb (fun sp h => by cases h) hsep hy tkb.text hfb _ hB
           | error => cases hpa
 
 end Chrono.Proofs.RoundTrip
